@@ -5,6 +5,19 @@
 // Monitors at the end (everything has returned: no cancel or bind in flight), independent of any model:
 //   reach: bound beneath a cancelled context => cancelled;  overreach: cancelled => a cancel call on it or on an ancestor
 //   returned true;  winner: at most one `true` per context;  no hang.
+// Second program (plan `TG:<depth>:<cancel level>:<rounds>`): task_group reuse.  A chain of persistent task_group objects
+// tg[0] (outer) ... tg[depth]; in every round a task of tg[k] runs tg[k+1].run(...) and tg[k+1].wait() — so the context of
+// tg[k+1] is bound beneath the context of tg[k] at its first use and STAYS bound across rounds, while every wait() resets its
+// own group's context on completion.  In the last round an external thread cancels tg[<cancel level>] while the innermost task
+// is running.  Monitors: at the moment the cancel call has returned (observed by the innermost task, before any wait() can
+// reset anything): every group below the cancelled one is cancelled (reach), no group above it is (overreach); the cancel
+// call returned true; after every round all contexts are reset; every wait() returned; no hang.
+// Third program (plan `EX:<0|1>`): contexts bound by a thread that exits.  An external thread E runs
+// parallel_for(..., P) whose body runs parallel_for(..., X): X is bound beneath P in E's context list.  With EX:1, E then
+// leaves (governor::terminate_external_thread: unregister_thread + ~thread_data -> context_list::orphan) BEFORE the main thread
+// reuses P and X the same way and a third thread cancels P while the inner body runs; with EX:0 (control) E leaves at the end.
+// Monitor: X is bound beneath P, cancel_group_execution(P) returned true, nothing was reset => the running inner body must
+// see X cancelled.
 // argv: <P> <W> <plan> rand <seed> <nruns> | <P> <W> <plan> replay <schedule-file>
 //   plan = comma separated cancel points  L<level>:<index>:<b|e>  (body number <index> of level <level> cancels its own
 //   loop's context at its begin / end), X:<k> (the external thread cancels the root as soon as k contexts have been created)
@@ -87,7 +100,165 @@ static std::string monitors(int n, std::string& table) {
     return err;
 }
 
+// ---- task_group reuse -------------------------------------------------------------------------------------------------
+static int g_tg_depth = -1, g_tg_cancel = 0, g_tg_rounds = 2;
+static tbb::task_group* g_tg[5];
+static std::atomic<int> g_tg_running{0}, g_tg_cancel_done{0}, g_tg_round{0}, g_tg_leaf_runs{0};
+static int g_tg_seen[5], g_tg_bound[5], g_tg_res = -1, g_tg_after_round[8][5], g_tg_status[8][5];
+static Ctx* tg_ctx(int k) { return &g_tg[k]->context(); }
+
+static void tg_level(int k, int round) {
+    if (k < g_tg_depth) {
+        g_tg[k + 1]->run([k, round] { tg_level(k + 1, round); });
+        g_tg_status[round][k + 1] = (int)g_tg[k + 1]->wait();
+        return;
+    }
+    g_tg_leaf_runs.fetch_add(1);
+    if (round == g_tg_rounds - 1) {
+        // innermost task of the last round: let the external thread cancel, then look at every group's flag
+        g_tg_running.store(1);
+        while (!g_tg_cancel_done.load()) _mm_pause();
+        for (int j = 0; j <= g_tg_depth; ++j) {
+            g_tg_seen[j] = (int)tg_ctx(j)->my_cancellation_requested.load(std::memory_order_relaxed);
+            g_tg_bound[j] = (tg_ctx(j)->my_state.load(std::memory_order_relaxed) == Ctx::state::bound && j > 0 && tg_ctx(j)->my_parent == tg_ctx(j - 1)) ? 1 : 0;
+        }
+    }
+}
+
+static bool run_tg(verif::Schedule& sch, long run_idx) {
+    g_tg_running.store(0); g_tg_cancel_done.store(0); g_tg_round.store(0); g_tg_leaf_runs.store(0); g_done.store(0); g_tg_res = -1;
+    for (int j = 0; j < 5; ++j) { g_tg_seen[j] = -1; g_tg_bound[j] = -1; }
+    for (int r = 0; r < 8; ++r) for (int j = 0; j < 5; ++j) { g_tg_after_round[r][j] = -1; g_tg_status[r][j] = -1; }
+    std::vector<std::function<void()>> bodies;
+    bodies.push_back([&] {
+        tbb::global_control gc(tbb::global_control::max_allowed_parallelism, (size_t)g_P);
+        tbb::task_scheduler_handle h{tbb::attach{}};
+        {
+            tbb::task_group groups[5];
+            for (int j = 0; j < 5; ++j) g_tg[j] = &groups[j];
+            for (int round = 0; round < g_tg_rounds; ++round) {
+                g_tg_round.store(round);
+                g_tg[0]->run([round] { tg_level(0, round); });
+                g_tg_status[round][0] = (int)g_tg[0]->wait();
+                for (int j = 0; j <= g_tg_depth; ++j)
+                    g_tg_after_round[round][j] = (int)tg_ctx(j)->my_cancellation_requested.load(std::memory_order_relaxed);
+            }
+            g_main_done.store(1);
+            while (g_done.load() < 1) _mm_pause();
+        }
+        tbb::finalize(h);
+    });
+    bodies.push_back([&] {
+        while (!g_tg_running.load()) _mm_pause();
+        g_tg_res = tg_ctx(g_tg_cancel)->cancel_group_execution() ? 1 : 0;
+        g_tg_cancel_done.store(1);
+        r1::governor::terminate_external_thread();
+        g_done.fetch_add(1);
+    });
+    verif::Result r = verif::run(bodies, sch, 6000000);
+    std::string err;
+    auto fail = [&](const std::string& m) { if (err.empty()) err = m; };
+    if (r.deadlock) fail("DEADLOCK every live thread parked (or step limit)");
+    else {
+        if (g_tg_leaf_runs.load() != g_tg_rounds) fail("VIOLATION lost-task: the innermost task ran " + S(g_tg_leaf_runs.load()) + " times in " + S(g_tg_rounds) + " rounds");
+        if (g_tg_res != 1) fail("VIOLATION single-winner: the only cancel call on the (reset) context of task_group " + S(g_tg_cancel) + " returned false");
+        for (int j = 1; j <= g_tg_depth; ++j)
+            if (g_tg_bound[j] != 1) fail("VIOLATION harness: context of task_group " + S(j) + " is not bound beneath the context of task_group " + S(j - 1));
+        for (int j = 0; j <= g_tg_depth; ++j) {
+            if (j >= g_tg_cancel && g_tg_seen[j] != 1)
+                fail("VIOLATION reach: the context of task_group " + S(j) + " is bound beneath the context of task_group " + S(g_tg_cancel) +
+                     " (bound in round 0, kept across the wait()/reset of every round), cancel_group_execution on the latter returned true in round " + S(g_tg_rounds - 1) +
+                     ", nothing was reset since, and the running innermost task does not see it cancelled");
+            if (j < g_tg_cancel && g_tg_seen[j] != 0)
+                fail("VIOLATION overreach: the context of task_group " + S(j) + " (an ancestor of the cancelled group " + S(g_tg_cancel) + ") is cancelled");
+        }
+        for (int round = 0; round < g_tg_rounds; ++round) for (int j = 0; j <= g_tg_depth; ++j) {
+            if (g_tg_after_round[round][j] != 0)
+                fail("VIOLATION reset: after round " + S(round) + " the context of task_group " + S(j) + " is still cancelled although its wait() has returned");
+            bool expect_cancel = round == g_tg_rounds - 1 && j >= g_tg_cancel;
+            if (g_tg_status[round][j] != (expect_cancel ? (int)tbb::canceled : (int)tbb::complete))
+                fail("VIOLATION status: task_group " + S(j) + " wait() in round " + S(round) + " returned " + S(g_tg_status[round][j]));
+        }
+    }
+    bool ok = err.empty();
+    printf("run %ld\ntask_groups %d cancel %d rounds %d seen", run_idx, g_tg_depth + 1, g_tg_cancel, g_tg_rounds);
+    for (int j = 0; j <= g_tg_depth; ++j) printf(" %d", g_tg_seen[j]);
+    printf("\nsteps %zu\nmon %s\n", r.steps, ok ? "ok" : err.c_str());
+    if (!ok) { printf("sched"); for (int s : r.schedule) printf(" %d", s); printf("\n"); }
+    printf("end\n");
+    fflush(stdout);
+    if (r.deadlock) _exit(3);
+    return ok;
+}
+
+// ---- contexts bound by a thread that exits --------------------------------------------------------------------------------
+static int g_ex_mode = -1;
+static std::atomic<int> g_ex_bound{0}, g_ex_gone{0}, g_ex_running{0}, g_ex_cancel_done{0}, g_ex_finish{0};
+static int g_ex_seen = -1, g_ex_isbound = -1, g_ex_res = -1;
+
+static bool run_ex(verif::Schedule& sch, long run_idx) {
+    g_ex_bound.store(0); g_ex_gone.store(0); g_ex_running.store(0); g_ex_cancel_done.store(0); g_ex_finish.store(0); g_done.store(0);
+    g_ex_seen = -1; g_ex_isbound = -1; g_ex_res = -1;
+    new (g_store[0]) Ctx(Ctx::bound);      // P
+    new (g_store[1]) Ctx(Ctx::bound);      // X
+    std::vector<std::function<void()>> bodies;
+    bodies.push_back([&] {
+        tbb::global_control gc(tbb::global_control::max_allowed_parallelism, 1);
+        tbb::task_scheduler_handle h{tbb::attach{}};
+        while (!g_ex_bound.load()) _mm_pause();
+        if (g_ex_mode == 1) while (!g_ex_gone.load()) _mm_pause();
+        tbb::parallel_for(0, 1, [&](int) {
+            tbb::parallel_for(0, 1, [&](int) {
+                g_ex_running.store(1);
+                while (!g_ex_cancel_done.load()) _mm_pause();
+                g_ex_seen = (int)C(1)->my_cancellation_requested.load(std::memory_order_relaxed);
+                g_ex_isbound = (C(1)->my_state.load(std::memory_order_relaxed) == Ctx::state::bound && C(1)->my_parent == C(0)) ? 1 : 0;
+            }, tbb::simple_partitioner(), *C(1));
+        }, tbb::simple_partitioner(), *C(0));
+        g_ex_finish.store(1);
+        while (g_done.load() < 2) _mm_pause();
+        tbb::finalize(h);
+    });
+    bodies.push_back([&] {     // E: first user of P and X
+        tbb::parallel_for(0, 1, [&](int) { tbb::parallel_for(0, 1, [](int) {}, tbb::simple_partitioner(), *C(1)); }, tbb::simple_partitioner(), *C(0));
+        g_ex_bound.store(1);
+        if (g_ex_mode != 1) while (!g_ex_finish.load()) _mm_pause();
+        r1::governor::terminate_external_thread();
+        g_ex_gone.store(1);
+        g_done.fetch_add(1);
+    });
+    bodies.push_back([&] {     // canceller
+        while (!g_ex_running.load()) _mm_pause();
+        g_ex_res = C(0)->cancel_group_execution() ? 1 : 0;
+        g_ex_cancel_done.store(1);
+        r1::governor::terminate_external_thread();
+        g_done.fetch_add(1);
+    });
+    verif::Result r = verif::run(bodies, sch, 6000000);
+    std::string err;
+    auto fail = [&](const std::string& m) { if (err.empty()) err = m; };
+    if (r.deadlock) fail("DEADLOCK every live thread parked (or step limit)");
+    else {
+        if (g_ex_res != 1) fail("VIOLATION single-winner: the only cancel call on context P returned false");
+        if (g_ex_isbound != 1) fail("VIOLATION harness: context X is not bound beneath context P");
+        else if (g_ex_seen != 1)
+            fail(std::string("VIOLATION ") + (g_ex_mode == 1 ? "reach-orphan" : "reach") + ": context X is bound beneath context P (bound by an external thread that ran a task of P" +
+                 (g_ex_mode == 1 ? " and has exited since: X sits in its orphaned context list" : "") +
+                 "), cancel_group_execution(P) returned true while a task of X is running, nothing was reset, and the task does not see X cancelled");
+    }
+    bool ok = err.empty();
+    printf("run %ld\nexit-before %d seen %d bound %d\nsteps %zu\nmon %s\n", run_idx, g_ex_mode, g_ex_seen, g_ex_isbound, r.steps, ok ? "ok" : err.c_str());
+    if (!ok) { printf("sched"); for (int s : r.schedule) printf(" %d", s); printf("\n"); }
+    printf("end\n");
+    fflush(stdout);
+    if (r.deadlock) _exit(3);
+    C(0)->~Ctx(); C(1)->~Ctx();
+    return ok;
+}
+
 static bool run_once(verif::Schedule& sch, long run_idx) {
+    if (g_tg_depth >= 0) return run_tg(sch, run_idx);
+    if (g_ex_mode >= 0) return run_ex(sch, run_idx);
     g_next.store(0); g_done.store(0); g_main_done.store(0); g_tick.store(0);
     for (int i = 0; i < MAXC; ++i) { g_wins[i] = 0; g_calls[i] = 0; }
     for (int i = 0; i < 4; ++i) g_body[i].store(0);
@@ -128,6 +299,14 @@ int main(int argc, char** argv) {
     verif::init_determinism(argc, argv);
     if (argc < 6) return 2;
     g_P = atoi(argv[1]); g_W = atoi(argv[2]);
+    if (std::string(argv[3]).compare(0, 3, "EX:") == 0) {
+        g_ex_mode = atoi(argv[3] + 3);
+        if (g_ex_mode != 0 && g_ex_mode != 1) { printf("bad-plan\n"); return 2; }
+    } else
+    if (std::string(argv[3]).compare(0, 3, "TG:") == 0) {
+        if (sscanf(argv[3], "TG:%d:%d:%d", &g_tg_depth, &g_tg_cancel, &g_tg_rounds) != 3 || g_tg_depth < 1 || g_tg_depth > 4 ||
+            g_tg_cancel < 0 || g_tg_cancel > g_tg_depth || g_tg_rounds < 1 || g_tg_rounds > 8) { printf("bad-plan\n"); return 2; }
+    } else
     { std::istringstream ps(argv[3]); std::string tok;
       while (std::getline(ps, tok, ',')) {
           if (tok.empty() || tok == "-") continue;
